@@ -344,6 +344,8 @@ def single_positioning_set(c):
     real_deepcopy = copy.deepcopy
     c.interp.overrides[copy.deepcopy] = lambda x, *a: (log.append(("copy", x is cs)), real_deepcopy(x))[1]
     c.interp.contracts["pycaption.base:merge_concurrent_captions"] = lambda interp, fn, a, kw: (log.append(("merge", N(fn, a, kw)["caption_set"] is not cs)), N(fn, a, kw)["caption_set"])[1]
+    from pyvc.verify import require_callees
+    require_callees(c.interp.contracts)
     r = c.call(SP._create_single_positioning_caption_set, cs, target, compare=False)
     c.ensure("copied_first_and_merged_on_the_copy", log[:2] == [("copy", True), ("merge", True)] and r is not cs)
     c.ensure("the_set_handed_in_keeps_its_layouts_and_styles",
